@@ -993,7 +993,7 @@ func init() {
 	core.Register(&core.Check{
 		Spec: core.Spec{
 			Prop:        "C11",
-			Rule:        "Virtual network of real nodes (real ledger, gossiper, flashback, awaiting cache, juggler) whose peer clients are stubs: a stub call marshals the message and blocks until the harness scheduler delivers it to the target's real handler. Topologies: all 9 connected unlabelled graphs on 2-4 nodes with every origin, plus sampled line/ring/star/random graphs on 5-7 nodes. One item in flight (vertex or awaiting transaction): delivery orders are enumerated systematically (choice vectors over the sorted in-flight set, odometer; bounded per tier), plus sampled policies (random, LIFO, starve-one-node, concurrent bursts to one node, 30% duplicates), mixed vertex+transaction traffic and parent+child created back to back. At logical quiescence (nothing in flight, no handler running, no gossiper goroutine outside its idle loop; parked vertices stepped through the retry hook): every honest node holds every item accepted at its origin with exactly one successful admission (awaiting transactions listed once), per (node,item) at most one send to any peer and only after the node's own admission, no send to a node listed as verified gossiper, forwarder's own valid entry present, at most k(k-1) messages per item. Gossiper entries are verified by the harness's own ed25519 check. Non-trivial = every execution; distinct by (topology, origin, item kinds, delivery order). One scenario gives the relay of a line a much smaller awaiting cache than its neighbours: a contract that does not fit it must still reach the node behind it. Also: an awaiting contract is gossiped to quiescence and then sealed at its origin (as notary Confirm does); the sealing vertex must reach every node although they all remember the contract's own gossip, and no node may keep listing the sealed contract as awaiting. Originator bursts: 3-6 contracts or vertices handed to the gossiper back to back, under GOMAXPROCS 1, 2 and all (with one processor a started sender does not run until the loop blocks). Contracts issued by the wallet of one node and proposed at another (line, path, star; every origin and issuer). Merge vertices: two nodes seal on one tip at the same moment; once both vertices are everywhere a third vertex names both as parents and must reach every node.",
+			Rule:        "Virtual network of real nodes (real ledger, gossiper, flashback, awaiting cache, juggler) whose peer clients are stubs: a stub call marshals the message and blocks until the harness scheduler delivers it to the target's real handler. Topologies: all 9 connected unlabelled graphs on 2-4 nodes with every origin, plus sampled line/ring/star/random graphs on 5-7 nodes. One item in flight (vertex or awaiting transaction): delivery orders are enumerated systematically (choice vectors over the sorted in-flight set, odometer; bounded per tier), plus sampled policies (random, LIFO, starve-one-node, concurrent bursts to one node, 30% duplicates), mixed vertex+transaction traffic and parent+child created back to back. At logical quiescence (nothing in flight, no handler running, no gossiper goroutine outside its idle loop; parked vertices stepped through the retry hook): every honest node holds every item accepted at its origin with exactly one successful admission (awaiting transactions listed once), per (node,item) at most one send to any peer and only after the node's own admission, no send to a node listed as verified gossiper, forwarder's own valid entry present, at most k(k-1) messages per item. Gossiper entries are verified by the harness's own ed25519 check. Non-trivial = every execution; distinct by (topology, origin, item kinds, delivery order). One scenario gives the relay of a line a much smaller awaiting cache than its neighbours: a contract that does not fit it must still reach the node behind it. Also: an awaiting contract is gossiped to quiescence and then sealed at its origin (as notary Confirm does); the sealing vertex must reach every node although they all remember the contract's own gossip, and no node may keep listing the sealed contract as awaiting. Originator bursts: 3-6 contracts or vertices handed to the gossiper back to back, under GOMAXPROCS 1, 2 and all (with one processor a started sender does not run until the loop blocks). Contracts issued by the wallet of one node and proposed at another (line, path, star; every origin and issuer). Merge vertices: two nodes seal on one tip at the same moment; once both vertices are everywhere a third vertex names both as parents and must reach every node. A hand-over pipe of four slots with bursts of twelve items.",
 			Assumptions: []string{"message order is controlled by the scheduler; interleavings inside one handler are the real ones", "the 20 s duplicate-suppression window is longer than any execution"},
 			MinEvals:    40, MinNontriv: 20,
 		},
